@@ -123,6 +123,8 @@ def keep(obj, label, where=None):
     except TypeError:
         return obj
     KEPT.append((obj, c, label, where if where is not None else _WHERE))
+    if label == "operand":
+        _OPS.append(obj)
     if label == "operand" and _VIA:
         obj = via(obj)
         KEPT.append((obj, c, label, where if where is not None else _WHERE))
@@ -183,7 +185,16 @@ def stair(l, r):
         return keep(S(left=[float(x) for x in l], right=[float(x) for x in r]), "operand")
     if _REP == "pos":
         return keep(S(np.array(l, dtype=float), np.array(r, dtype=float)), "operand")
-    return keep(S(left=np.array(l, dtype=float), right=np.array(r, dtype=float)), "operand")
+    if _REP == "longdouble" or (_REP == "f32" and all(float(np.float32(v)) == float(v) for v in list(l) + list(r))):
+        dt = np.float32 if _REP == "f32" else np.longdouble
+        return keep(S(left=np.array(l, dtype=dt), right=np.array(r, dtype=dt)), "operand")
+    bl, br = np.array(l, dtype=float), np.array(r, dtype=float)
+    _BUFS.extend([bl, br])
+    P = S(left=bl, right=br)
+    if _WHERE is not None and _WHERE.get("mutate"):
+        _OPS.append(P)
+        return P                     # its buffers are overwritten after the call: not re-verified later
+    return keep(P, "operand")
 
 
 def num(c):
@@ -207,20 +218,67 @@ def canon(r):
     raise TypeError(f"unexpected result type {type(r).__name__}")
 
 
+_AMB = None          # ambient dependency code the run is executed under (`with pba.dependency(d)`), or None
+_FPMODE = None       # None | "raise" (np.errstate(all="raise")) | "warn-error" (warnings escalated to errors)
+_BUFS = []           # the caller's float64 buffers the operands of the current run were built from (kind Q)
+_OPS = []            # the operand objects of the current run
+STATE_ISSUES = []    # global state found changed after a call: reported by the oracle of the case
+
+
+def _arrays_of(obj):
+    out = []
+    for name in ("left", "right", "lo", "hi", "_left", "_right", "_lo", "_hi"):
+        v = getattr(obj, name, None)
+        if isinstance(v, np.ndarray) and v.ndim >= 1:
+            out.append(v)
+    return out
+
+
 def guarded(f):
+    from pyuncertainnumber.pba.context import dependency, get_current_dependency
+    import contextlib
+    del _BUFS[:], _OPS[:]
+    before = get_current_dependency()
     try:
         with warnings.catch_warnings():
-            warnings.simplefilter("ignore")
-            with np.errstate(all="ignore"):
-                r = f()
+            warnings.simplefilter("error" if _FPMODE == "warn-error" else "ignore")
+            with np.errstate(all="raise" if _FPMODE == "raise" else "ignore"):
+                with (dependency(_AMB) if _AMB else contextlib.nullcontext()):
+                    r = f()
                 c = canon(r)
                 if not isinstance(r, (int, float, tuple)):
                     KEPT.append((r, c, "result", _WHERE))
+                    # kind Q: the result must not BE an operand, nor share memory with an operand or a caller's buffer
+                    ra = _arrays_of(r)
+                    single = _WHERE is not None and "tree" not in _WHERE and _WHERE.get("f") not in ("dss", "imc", "slice", "b2b")
+                    for o in _OPS:
+                        if o is r:
+                            if single:
+                                STATE_ISSUES.append(("result-is-operand", _WHERE))
+                        elif any(np.shares_memory(x_, y_) for x_ in ra for y_ in _arrays_of(o)):
+                            STATE_ISSUES.append(("result-shares-memory-with-operand", _WHERE))
+                    if any(np.shares_memory(x_, b_) for x_ in ra for b_ in _BUFS):
+                        STATE_ISSUES.append(("result-shares-memory-with-caller-buffer", _WHERE))
+                    if _BUFS and _WHERE is not None and _WHERE.get("mutate"):
+                        for b_ in _BUFS:
+                            b_ += 5.0           # the caller re-uses its buffers
+                        c2 = canon(r)
+                        if not same_canon(c, c2):
+                            STATE_ISSUES.append(("result-changed-when-caller-buffer-mutated", _WHERE))
                 return c
     except OutOfDomain as e:
         return ("err", "Domain", str(e))
+    except (FloatingPointError, Warning) as e:
+        if _FPMODE:
+            return ("err", "Escalated", f"{type(e).__name__}: {str(e)[:80]}")      # acceptable: the escalation propagated
+        return ("err", err_kind(e), f"{type(e).__name__}: {str(e)[:80]}")
     except BaseException as e:  # noqa
         return ("err", err_kind(e), f"{type(e).__name__}: {str(e)[:80]}")
+    finally:
+        if get_current_dependency() != before:
+            STATE_ISSUES.append(("ambient-dependency-left-changed:" + str(get_current_dependency()), _WHERE))
+            from pyuncertainnumber.pba import context as _ctx
+            _ctx._current_dependency.set(before)
 
 
 class OutOfDomain(Exception):
@@ -329,8 +387,8 @@ def impl_imc(spec, runs):
     """interval Monte Carlo on the operand sets of one case, in the order spec['order'], all on ONE dependency object
     and with the default random_state (as a user who builds the dependency once would do); the first operand set is
     run once more at the end.  Returns (results per run, level rows per run, repeated result, its rows)."""
-    global _REP, _WHERE, _VIA
-    _REP, _WHERE, _VIA = spec.get("rep", "float"), spec, spec.get("via")
+    global _REP, _WHERE, _VIA, _AMB, _FPMODE
+    _REP, _WHERE, _VIA, _AMB, _FPMODE = spec.get("rep", "float"), spec, spec.get("via"), None, None
     from pyuncertainnumber.propagation.mixed_up import interval_monte_carlo
     try:
         de = make_dependency(spec)
@@ -358,6 +416,14 @@ def impl_imc(spec, runs):
         res[i], lev[i] = one(runs[i])
     again, lev_again = one(runs[order[0]])
     return res, lev, again, lev_again
+
+
+def expo(spec):
+    """kind S: the same integral exponent carried by different numeric types"""
+    k, t = int(spec["k"]), spec.get("ktype", "int")
+    from fractions import Fraction
+    return {"int": k, "float": float(k), "npfloat": np.float64(k), "npint": np.int64(k), "npf32": np.float32(k),
+            "fraction": Fraction(k)}[t]
 
 
 def dss_run(spec, inp, exact_box):
@@ -394,14 +460,15 @@ def dss_run(spec, inp, exact_box):
 
 def impl(spec, inp):
     """one run of the real code"""
-    global _REP, _WHERE, _VIA
+    global _REP, _WHERE, _VIA, _AMB, _FPMODE
     _REP, _WHERE, _VIA = spec.get("rep", "float"), spec, spec.get("via")
+    _AMB, _FPMODE = spec.get("ambient"), spec.get("fpmode")
     f = spec["f"]
     if f == "ivl-bin":
         return guarded(lambda: PYOPS[spec["op"]](mkI(inp["x"]), mkI(inp["y"])))
     if f == "ivl-un":
         if spec["fn"] == "powk":
-            return guarded(lambda: mkI(inp["x"]) ** int(spec["k"]))
+            return guarded(lambda: mkI(inp["x"]) ** expo(spec))
         return guarded(lambda: UN_IVL[spec["fn"]](mkI(inp["x"])))
     if f == "itree":
         return guarded(lambda: ieval(spec["tree"], [mkI(b) for b in inp["box"]]))
@@ -428,7 +495,7 @@ def impl(spec, inp):
         return guarded(lambda: stair(*inp["x"]).reciprocal())
     if f == "pb-un":
         if spec["fn"] == "powk":
-            return guarded(lambda: stair(*inp["x"]) ** int(spec["k"]))
+            return guarded(lambda: stair(*inp["x"]) ** expo(spec))
         return guarded(lambda: UN_PB[spec["fn"]](stair(*inp["x"])))
     if f == "pb-agg":
         def run():
@@ -1042,7 +1109,8 @@ def sub_result_check(spec, inp, res, exact, depth, rng, hint=0.0):
         k = int(spec["k"])
         x = inp["x"]
         RL, RR = [F(a) for a in res[1]], [F(a) for a in res[2]]
-        for sx in ([F(a) for a in x[0]], [F(a) for a in x[1]]):
+        near0 = sorted(min(max(F(0), F(a)), F(b)) for a, b in zip(x[0], x[1]))
+        for sx in ([F(a) for a in x[0]], [F(a) for a in x[1]], near0):
             if k < 0 and any(a == 0 for a in sx):
                 continue
             z = sorted(a ** k for a in sx)
@@ -1570,9 +1638,21 @@ def gen_cases(ctx):
             runs = [scaled(r_, sc) for r_ in runs]
             spec = {**spec, "scale": sc}
             stream = stream + "@scaled"
+        if spec.get("bare") and spec.get("dep", "f") != "f":
+            spec["ambient"] = spec["dep"]              # infix operator inside `with dependency(d)` == the named method with d
+        elif "ambient" not in spec and spec["f"] in ("pb-bin", "ptree", "dss", "pb-agg", "pb-num", "pb-neg", "pb-recip", "pb-un") \
+                and not spec.get("bare") and spec.get("use") != "rbin" and rng.random() < 0.25:
+            # standing practice: explicit-dependency calls INSIDE a `with pba.dependency(d)` block of every code
+            spec["ambient"] = rng.choice("fpoi")
+        if spec["f"] != "imc" and rng.random() < 0.08:
+            spec["fpmode"] = rng.choice(["raise", "warn-error"])     # kind P: same value or the escalation propagates
+        if spec["f"] in ("pb-bin", "pb-num", "pb-agg", "pb-neg", "pb-recip", "cut", "ptree") and rng.random() < 0.1:
+            spec["mutate"] = True                                    # kind Q: the caller overwrites its buffers after the call
+            spec["rep"] = "float"
         if "rep" not in spec and spec["f"] != "pb-raw":
             # theme B: the same numbers as float arrays (keywords), int64 arrays / Python ints, Python lists, positional arguments
-            spec["rep"] = rng.choice(["float"] * 11 + ["int"] * 4 + ["list"] * 2 + ["pos"] * 3)
+            spec["rep"] = rng.choice(["float"] * 11 + ["int"] * 4 + ["list"] * 2 + ["pos"] * 3 +
+                                     (["f32", "longdouble"] if spec["f"] in ("pb-bin", "pb-num", "pb-agg", "pb-neg", "cut") else []))
         cases.append({"stream": stream, "spec": spec, "runs": runs, "exact": exact, "nontrivial": nontriv})
 
     # ---- 1. scalar / vector intervals: one operator
@@ -1648,7 +1728,7 @@ def gen_cases(ctx):
                 add("ivl-vec-classes", {"f": "ivl-bin", "op": op, "form": form, "widened": which},
                     [{"x": x, "y": y}, {"x": x2, "y": y2}], exact=(dy and op != "div"), nontriv=(x != x2 or y != y2))
     # ---- 2. unary maps of an interval
-    for _ in range(S(500, 6000)):
+    for _ in range(S(400, 6000)):
         fn = rng.choice(["exp", "log", "sqrt", "abs", "pow2", "pow3", "tanh", "neg", "recip", "sin", "cos", "tan", "powk", "powk"])
         dy = rng.random() < 0.6
         sign = "pos" if fn in ("log", "sqrt") and rng.random() < 0.8 else None
@@ -1677,14 +1757,15 @@ def gen_cases(ctx):
         if rng.random() < 0.3:
             v = [v[0], v[0]] if rng.random() < 0.5 else [v[1], v[1]]
         return v, w2
-    for k in (-1, -2, -3, -4, 2, 3, 5):
+    KTYPES = ["int", "int", "int", "npint", "float", "npfloat", "npf32", "fraction"]
+    for k in (-1, -2, -3, -4, 2, 3, 4, 5):
         for cross in ("same", "touch", "inside"):
             for kind in ("scalar", "vector", "pbox"):
                 for rep_ in range(S(2, 20)):
                     dy = rng.random() < 0.6
                     if kind == "scalar":
                         x, x2 = pole_pair(dy, cross)
-                        add("int-powers", {"f": "ivl-un", "fn": "powk", "k": k, "cross": cross}, [{"x": x}, {"x": x2}], False, nontriv=(x != x2))
+                        add("int-powers", {"f": "ivl-un", "fn": "powk", "k": k, "cross": cross, "ktype": rng.choice(KTYPES)}, [{"x": x}, {"x": x2}], False, nontriv=(x != x2))
                     elif kind == "vector":
                         ps = [pole_pair(dy, "same") for _ in range(3)] + [pole_pair(dy, cross)]
                         rng.shuffle(ps)
@@ -1709,7 +1790,7 @@ def gen_cases(ctx):
                             bx, bx2 = (list(bx[0]), list(bx[1])), (sorted(bx2[0]), sorted(bx2[1]))
                             if not is_sub(bx, bx2):
                                 continue
-                        add("int-powers", {"f": "pb-un", "fn": "powk", "k": k, "cross": cross}, [{"x": bx}, {"x": bx2}], False, nontriv=(bx != bx2))
+                        add("int-powers", {"f": "pb-un", "fn": "powk", "k": k, "cross": cross, "ktype": rng.choice(KTYPES)}, [{"x": bx}, {"x": bx2}], False, nontriv=(bx != bx2))
     # domain edges of sqrt / log: the wider operand starts just below the domain (lo = -1e-17, lo = 0 for log)
     for fn in ("sqrt", "log"):
         for edge in (-1e-17, -1e-300, -0.5, 0.0):
@@ -1757,7 +1838,7 @@ def gen_cases(ctx):
                     xx = rand_ivl(rng, None, True)
                     add("pole-tiny", {"f": "ivl-bin", "op": "div", "form": "II", "widened": "y"}, [{"x": xx, "y": a1}, {"x": xx, "y": a2}], False)
     # ---- 3. nested interval expressions
-    for _ in range(S(600, 7000)):
+    for _ in range(S(500, 7000)):
         nv = rng.choice([1, 2, 3])
         div = rng.random() < 0.25
         t = rand_itree(rng, rng.choice([1, 2, 3, 3]), nv, div)
@@ -1770,7 +1851,7 @@ def gen_cases(ctx):
             nontriv=(b1 != b2 and bool(tree_vars(t))))
     # ---- 4. raw combination rules, small n (index arithmetic exhaustively exercised)
     signs = ["pos", "neg", "str", None, "pos0", "neg0"]
-    for _ in range(S(1200, 18000)):
+    for _ in range(S(1000, 18000)):
         n = rng.choice([1, 2, 2, 3, 3, 4, 5, 6])
         rule = rng.choice(["frechet", "frechet", "perfect", "opposite", "independent", "naive"])
         op = rng.choice(["add", "mul"])
@@ -1803,7 +1884,7 @@ def gen_cases(ctx):
             y2 = y
         elif which == "y":
             x2 = x
-        bare = dep == "f" and rng.random() < 0.3
+        bare = rng.random() < 0.25
         add("pb-bin-" + grid,
             {"f": "pb-bin", "op": op, "dep": dep, "ykind": ykind, "bare": bare, "widened": which},
             [{"x": x, "y": y}, {"x": x2, "y": y2}], exact=(general is not True and op != "div"), nontriv=(x != x2 or y != y2))
@@ -1864,6 +1945,24 @@ def gen_cases(ctx):
             x, x2 = pair_box(rng, base_box(rng, STEPS, None, False), "int")
             add("same-object", {"f": "pb-agg", "agg": agg, "api": api, "kinds": ["pbox", "pbox"], "alias": True},
                 [{"ops": [x, x]}, {"ops": [x2, x2]}], True, nontriv=(x != x2))
+    # ---- 5d. explicit dependency INSIDE a `with pba.dependency(d)` block of every OTHER code (an ambient context must not
+    #           leak into a call that names its dependency): every operation, straddling x straddling products included
+    for op in OPS4:
+        for dep in "fpoi":
+            for amb in [a_ for a_ in "fpoi" if a_ != dep]:
+                if dep != "f" and rng.random() < 0.6:
+                    continue
+                general = pick_general(rng, 0.2, 0.0)
+                grid = grid_of(general)
+                both_str = (op == "mul" and rng.random() < 0.7)
+                sx = "str" if both_str else rng.choice(signs)
+                sy = "str" if both_str else (rng.choice(["pos", "neg"]) if op == "div" else rng.choice(signs))
+                x, x2 = pair_box(rng, base_box(rng, STEPS, sx, general), grid)
+                y, y2 = pair_box(rng, base_box(rng, STEPS, sy, general), grid, keep_sign=(op == "div"))
+                if rng.random() < 0.5:
+                    y2 = y
+                add("ambient", {"f": "pb-bin", "op": op, "dep": dep, "ykind": "pbox", "bare": False, "ambient": amb},
+                    [{"x": x, "y": y}, {"x": x2, "y": y2}], exact=(general is not True and op != "div"), nontriv=(x != x2 or y != y2))
     # ---- 6. number operands, negation, reciprocal
     for _ in range(S(120, 2000)):
         general = pick_general(rng, 0.25, 0.15)
@@ -2000,8 +2099,8 @@ def gen_cases(ctx):
         add("ptree", {"f": "ptree", "tree": t, "depth": tree_depth(t)}, [{"vars": v1}, {"vars": v2}], general is False,
             nontriv=(v1 != v2))
     # ---- 10. stacking
-    for _ in range(S(200, 3000)):
-        k = rng.choice([1, 2, 3, 5, 8, 13, 40, 120, STEPS - 2, STEPS - 1, STEPS, STEPS + 1])
+    for _ in range(S(150, 3000)):
+        k = rng.choice([1, 2, 3, 5, 8, 13, 40, 2, 3, 5, 8, 13, 40, 120] + ([STEPS - 2, STEPS - 1, STEPS, STEPS + 1] if rng.random() < 0.5 else [3, 5]))
         dy = rng.random() < 0.6
         ps = [pair_ivl(rng, None, dy) for _ in range(k)]
         keep = [rng.random() < 0.3 for _ in range(k)]
@@ -2077,7 +2176,7 @@ def gen_cases(ctx):
                             (pvals()[7] + pvals()[8]) / 2, rng.random()])
         add("cut", {"f": "cut", "alpha": alpha}, [{"x": x}, {"x": x2}], True, nontriv=(x != x2))
     # ---- 12. mixed propagation: slicing with a fixed number of slices
-    for _ in range(S(40, 700)):
+    for _ in range(S(30, 700)):
         general = pick_general(rng, 0.2, 0.1)
         grid = grid_of(general)
         d = rng.choice([2, 2, 2, 3])
@@ -2103,7 +2202,7 @@ def gen_cases(ctx):
         add("slice", spec, [{"vars": v1}, {"vars": v2}], exact=(general is False and strategy == "direct" and not tree_extreme(t)), nontriv=(v1 != v2))
     # ---- 12b. interval Monte Carlo: the pair (and a repetition) on ONE dependency object, default random_state,
     #            in both orders; the discretisation (the rows of levels drawn) has to be the same in every run
-    for gi in range(S(36, 450)):
+    for gi in range(S(28, 450)):
         general = pick_general(rng, 0.2, 0.1)
         grid = grid_of(general)
         d = rng.choice([2, 2, 2, 3])
@@ -2204,7 +2303,7 @@ WITNESSES = [
 
 # =====================================================================================================
 def features(spec, extra):
-    keep = ("f", "op", "dep", "fn", "k", "use", "rule", "agg", "api", "strategy", "style", "monotone", "repeated", "side", "ykind", "form", "rep",
+    keep = ("f", "op", "dep", "fn", "k", "use", "ambient", "fpmode", "ktype", "bare", "rule", "agg", "api", "strategy", "style", "monotone", "repeated", "side", "ykind", "form", "rep",
             "family", "order")
     d = {("family" if k == "f" else ("copula" if k == "family" else k)): spec[k] for k in keep if k in spec and spec[k] is not None}
     d.update(extra)
@@ -2319,8 +2418,8 @@ def tie_phase(ctx, c, impls, models, verbose=False):
         if mo is None:
             continue
         dom = in_domain(spec, inp)
-        if im[0] == "err" and im[1] == "Domain":
-            continue                # nested divisor containing zero: not compared
+        if im[0] == "err" and im[1] in ("Domain", "Escalated"):
+            continue                # nested divisor containing zero / an escalated warning propagated: not compared
         nested_div_t = spec["f"] in ("itree", "ptree", "slice", "b2b", "imc") and tree_has(spec["tree"], ("div",))
         if (not dom or nested_div_t) and im[0] == "err" and mo[0] == "err":
             ctx.tie_ok()            # both reject; kinds may differ through Python's operator fall-back (c / P -> TypeError)
@@ -2372,7 +2471,7 @@ def oracle_phase(ctx, c):
     if spec["f"] == "imc" and imc_sequence_checks(ctx, c, impls):
         return impls
     _oracle(ctx, c, impls, dep)
-    if REEXEC is not None and spec["f"] != "imc" and ctx.evaluations % 14 == 0 and len(REEXEC) < 600:
+    if REEXEC is not None and spec["f"] != "imc" and ctx.evaluations % 20 == 0 and len(REEXEC) < 600:
         REEXEC.append((spec, runs, impls, stream))
     verify_kept(ctx)
     return impls
@@ -2433,7 +2532,21 @@ def _oracle(ctx, c, impls, dep):
     case_json = {"spec": spec, "runs": runs, "exact": exact, "stream": stream}
     doms = [in_domain(spec, inp) for inp in runs]
     nested_div = spec["f"] in ("itree", "ptree", "slice", "b2b", "imc") and tree_has(spec["tree"], ("div",))
+    if STATE_ISSUES:
+        issues = list(STATE_ISSUES)
+        del STATE_ISSUES[:]
+        mine = [k_ for k_, w_ in issues if w_ is spec]
+        if mine:
+            ctx.fail(features(spec, {"check": "state", "symptom": mine[0]}), {**case_json, "issues": mine},
+                     f"{stream}: {mine[0]} (the call left global state changed, or its result aliases an operand / the caller's buffer)")
+            return
     for i, (inp, im, dom) in enumerate(zip(runs, impls, doms)):
+        if im[0] == "err" and im[1] == "Escalated":
+            ctx.bump("escalated-warning-or-fp-error-propagated")
+            return
+        if im[0] == "err" and spec.get("ktype", "int") not in ("int", "npint") and im[1] in ("Other", "Type"):
+            ctx.bump("exponent-type-rejected")
+            return
         if im[0] == "err":
             if not dom or im[1] == "Domain":
                 ctx.bump("outside-domain")
